@@ -157,6 +157,15 @@ def probe(acc, world, trace, meta, props):
             afterst = {t["tid"]: (t["state"], t["name"]) for t in w_c.pool["summary"]["tasks"]}
             collateral = sorted(name for tid, (st, name) in afterst.items() if st == "CANCELLED" and before.get(tid) != "CANCELLED" and name not in sel
                                 and not _downstream_of(rel, name, sel))
+            # ... nor touched in any other way: no process exit or timer is delivered during the command, so the state, the process and
+            # the worker of every task that was not selected (and is not downstream of a selected one) are exactly what they were
+            full_before = {t["tid"]: (t["state"], t["alive"], t["killed"], t["done"]) for t in world.pool["summary"]["tasks"]}
+            touched = sorted(t["name"] for t in w_c.pool["summary"]["tasks"] if t["tid"] in full_before and (t["state"], t["alive"], t["killed"], t["done"]) != full_before[t["tid"]]
+                             and t["name"] not in sel and not _downstream_of(rel, t["name"], sel) and t["name"] not in collateral
+                             and t["tid"] not in got)
+            if touched:
+                viol("C17", "cancel disturbed the task of a target that was not selected", dict(args=args, touched=touched, before=world.pool["summary"]["tasks"], after=w_c.pool["summary"]["tasks"]), sel=label,
+                     blame=set(touched))
             if collateral:
                 # blame the selected targets whose (stale) tracked id is the id of the task that was hit
                 hit_ids = {tid for tid, (st, name) in afterst.items() if name in collateral and st == "CANCELLED" and before.get(tid) != "CANCELLED"}
